@@ -282,7 +282,7 @@ fn snapshot<K: HKey>(cas: &Cas<K>, u: &Universe<K>, root: &Path, names: &alpha::
     let (ok, bad, unk, junk) = alpha::scan_cas(root, names);
     json!({
         "mask": {"i": m.intents, "s": m.state, "w": m.wal},
-        "idx": idx.map_or(json!([]), |v| json!(v)), "has_idx": verif::index_snapshot(cas.as_arc()).is_some(),
+        "idx": idx.clone().map_or(json!([]), |v| json!(v)), "has_idx": idx.is_some(),
         "intents": intents.clone().map_or(json!([]), |v| json!(v)), "has_intents": intents.is_some(),
         "nv": verif::next_op_version(cas.as_arc()).map_or(0, |v| v as i64),
         "casw": crate::shim::cas_writes(),
